@@ -4,6 +4,8 @@ mod rt;
 mod set;
 #[cfg(feature = "par")]
 mod par;
+#[cfg(feature = "ser")]
+mod ser;
 use griddle::hash_map::{Entry, RawEntryMut};
 use griddle::HashMap;
 use rt::*;
@@ -1247,6 +1249,100 @@ fn op_from_iter(cx: &mut Ctx, s: usize, hb: HB, keys: Vec<u64>, hint: usize) {
     }
 }
 
+/// Serialize slot s with the recording serializer: the declared length, then every entry in order.
+#[cfg(feature = "ser")]
+fn op_serialize(cx: &mut Ctx, s: usize) -> Vec<(u64, u64, u64)> {
+    let spec = OpSpec { toks: format!("serialize {}", s), kind: "serialize", slots: vec![s], pslot: Some(s), fuse: None, key_adding: false, readonly: true, key: None };
+    let mut items: Vec<(u64, u64, u64)> = Vec::new();
+    let mut problem: Option<String> = None;
+    let out = run_op(cx, spec, |cx| {
+        let m = cx.maps[s].as_ref().unwrap();
+        match ser::emit(m) {
+            Ok(e) => {
+                if e.kind != "map" || !e.ended || e.keys.len() != e.vals.len() {
+                    problem = Some(format!("not a well-formed map: kind {} ended {} {} keys {} values", e.kind, e.ended, e.keys.len(), e.vals.len()));
+                }
+                for (k, v) in e.keys.iter().zip(e.vals.iter()) {
+                    let (c, i) = ser::dec(*k);
+                    items.push((c, i, *v));
+                }
+                Out::S(vec![Out::N(e.declared.map_or(u64::MAX, |n| n as u64)), Out::L(items.clone())])
+            }
+            Err(m) => {
+                problem = Some(m);
+                Out::U
+            }
+        }
+    });
+    if cx.monitors {
+        if let Some(p) = problem {
+            vio("C16", format!("Serialize of slot {}: {}", s, p));
+        }
+        let m = cx.maps[s].as_ref().unwrap();
+        let seq: Vec<(u64, u64, u64)> = m.iter().map(|(k, v)| (k.class, k.id, v.get())).collect();
+        if let Out::S(ref l) = out {
+            if l[0] != Out::N(m.len() as u64) {
+                vio("C16", format!("Serialize declared length {:?} for a map of {} elements", l[0], m.len()));
+            }
+            if l[1] != Out::L(seq.clone()) {
+                vio("C16", format!("Serialize emitted {} entries, iter() yields {} (each once, in iteration order)", items.len(), seq.len()));
+            }
+        }
+        check_contents(cx, s, "C16", "Serialize");
+    }
+    items
+}
+
+/// Deserialize a map from `items` into slot d (the size hint as chosen); recorded as from_iter
+/// with the cautious hint, which is what the visitor does.
+#[cfg(feature = "ser")]
+fn op_deserialize(cx: &mut Ctx, d: usize, items: Vec<(u64, u64, u64)>, hint: Option<usize>) {
+    let mut toks = format!("fromiter {} 0 {} {}", d, ser::cautious(hint), items.len());
+    for (k, kid, v) in &items {
+        write!(toks, " {} {} {}", k, kid, v).unwrap();
+    }
+    let spec = OpSpec { toks, kind: "deserialize", slots: vec![d], pslot: None, fuse: None, key_adding: false, readonly: false, key: None };
+    if cx.maps[d].is_some() {
+        arm(None);
+        cx.maps[d] = None;
+        let c = disarm();
+        cx.tab_allocs += c.allocs;
+        cx.tab_frees += c.frees;
+    }
+    cx.poisoned[d] = false;
+    let pairs: Vec<(u64, u64)> = items.iter().map(|(k, kid, v)| (ser::enc(*k, *kid), *v)).collect();
+    let mut err: Option<String> = None;
+    run_op(cx, spec, |cx| {
+        match ser::map_from::<Map>(pairs, hint) {
+            Ok(m) => cx.maps[d] = Some(m),
+            Err(e) => {
+                err = Some(e);
+                cx.maps[d] = Some(Map::default());
+            }
+        }
+        Out::U
+    });
+    let mut rf = Ref::new();
+    for (k, kid, v) in items {
+        match rf.get_mut(&k) {
+            Some(e) => {
+                let e: &mut (u64, u64) = e;
+                e.1 = v
+            }
+            None => {
+                rf.insert(k, (kid, v));
+            }
+        }
+    }
+    cx.refs[d] = Some(rf);
+    if cx.monitors {
+        if let Some(e) = err {
+            vio("C16", format!("Deserialize failed: {}", e));
+        }
+        check_contents(cx, d, "C16", "Deserialize");
+    }
+}
+
 fn op_clone(cx: &mut Ctx, s: usize, d: usize, fuse: Option<u64>) -> Out {
     let spec = OpSpec { toks: format!("clone {} {}", s, d), kind: "clone", slots: vec![s, d], pslot: if fuse.is_some() { Some(s) } else { None }, fuse, key_adding: false, readonly: false, key: None };
     cx.maps[d] = None;
@@ -1767,7 +1863,7 @@ fn main() {
             continue;
         }
         let hseed = seed.wrapping_mul(1_000_003).wrapping_add(h);
-        if family == "set" || family == "parset" {
+        if family == "set" || family == "parset" || family == "serset" {
             // HashSet histories have their own driver (set.rs); same trace format
             let mut sx = set::SCtx {
                 sets: (0..3).map(|_| None).collect(),
@@ -1784,6 +1880,7 @@ fn main() {
                 tab_frees: 0,
                 abort: false,
                 par: family == "parset",
+                ser: family == "serset",
             };
             let probe: griddle::HashSet<K, HB> = griddle::HashSet::with_hasher(HB { kind: 0, id: 0 });
             let r = probe.verif_state().r;
